@@ -188,7 +188,7 @@ class BleH(explore.Harness):
                                             "ble_advertisement", "description", "key", "_derive", "_session_id", "_last_seen", "_broadcast_decryption_key"))
         return (generic, ek.counter if ek else None, dk.counter if dk else None, (acc.secure or {}).get("c2a_ctr"), (acc.secure or {}).get("a2c_ctr"), len(self.rig.clients),
                 bool(self.rig.client and self.rig.client.is_connected), tuple((t.done(), t.cancelled()) for t in self.tasks), tuple((w[1], w[2]) for w in self.rig.waiting if not w[0].done()),
-                tuple(sorted((k, len(v)) for k, v in acc.out.items() if v)), tuple(sorted(round(h._when - self.loop.time(), 6) for h in self.loop._scheduled if not h._cancelled)), len(self.delivered) > 0)
+                tuple(sorted((k, len(v)) for k, v in acc.out.items() if v)), tuple(sorted(round(h._when - self.loop.time(), 6) for h in self.loop._scheduled if not h._cancelled)), len(self.delivered) > 0, _c.tasks_sig(self.loop))
 
     def outcome(self):
         return f"links={len(self.rig.clients)},accepted={len(self.log.accepted())},tasks={len(self.tasks)}"
